@@ -907,12 +907,84 @@ def check_config(res, spec, ws, index=0, pre=None):
                  'members+nonmembers' if nontriv else 'no-membership-contrast', cx.ok))
 
 
+# ---------------------------------------------------------------- distorted WCS --
+DISTORTED = [{'proj': 'TAN', 'rot': 30.0, 'cdelt': 1e-4, 'ctype': 'RA/DEC', 'crval': [266.0, -29.0], 'sip': True},
+             {'proj': 'TAN', 'rot': 0.0, 'cdelt': 0.01, 'ctype': 'RA/DEC', 'crval': [40.0, 20.0], 'sip': True},
+             {'proj': 'TAN', 'rot': 30.0, 'cdelt': 1e-4, 'ctype': 'RA/DEC', 'crval': [40.0, 20.0], 'sip': False, 'lookup': True}]
+DIST_CENTRES = [(180.0, 250.0), (-120.0, 90.0), (49.0, 59.0)]
+
+
+def check_distorted(res, ws, ic, ig):
+    """A WCS with a distortion term (SIP polynomial, lookup table): a sky region contains a sky position exactly when the
+    pixel region it converts to contains the pixel that position falls on -- under the complete transformation, the
+    one ``wcs.pixel_to_world`` applies.  Queries are pixels; those within 2e-3 pixel of the converted region's
+    boundary are left out (the inverse of a distorted transformation is iterative)."""
+    import astropy.units as u
+    from regions import PixCoord
+    from mc.props.c20 import build_wcs
+    w = build_wcs(ws)
+    c = DIST_CENTRES[ic]
+    geo = geometries(c)[ig]
+    case = {'part': 'distorted', 'wcs': ws, 'ic': ic, 'ig': ig, 'cls': geo['cls']}
+    res.states += 1
+    res.evaluations += 1
+    res.axis('distorted_wcs', ('SIP' if ws['sip'] else 'lookup') + f" rot {ws['rot']:g} scale {ws['cdelt']:g}")
+    try:
+        preg = G.build(geo)
+        sreg = preg.to_sky(w)
+        back = sreg.to_pixel(w)
+    except Exception as exc:      # noqa: BLE001
+        res.violation(ID, 'unexpected_exception', case, f'{geo["cls"]}: to_sky / to_pixel with a distorted WCS raised {type(exc).__name__}: {exc}')
+        return
+    ext = 30.0
+    n = 25
+    gx = c[0] + (np.arange(n) - (n - 1) / 2.0) * (2.0 * ext / n) + 0.013
+    gy = c[1] + (np.arange(n) - (n - 1) / 2.0) * (2.0 * ext / n) - 0.007
+    GX, GY = (a.ravel() for a in np.meshgrid(gx, gy))
+    qx, qy = G.shape_frame_queries(geo, 12)
+    GX, GY = np.concatenate([GX, qx]), np.concatenate([GY, qy])
+    sc = w.pixel_to_world(GX, GY)
+    res.transitions += 1
+    try:
+        got = np.asarray(sreg.contains(sc, w), bool)
+    except Exception as exc:      # noqa: BLE001
+        res.violation(ID, 'unexpected_exception', case, f'{geo["cls"]}: contains with a distorted WCS raised {type(exc).__name__}: {exc}')
+        return
+    base = np.asarray(back.contains(PixCoord(GX, GY)), bool)
+    sure = np.ones(GX.shape, bool)
+    for k in range(8):
+        a = 2.0 * math.pi * k / 8.0
+        sure &= np.asarray(back.contains(PixCoord(GX + 2e-3 * math.cos(a), GY + 2e-3 * math.sin(a))), bool) == base
+    bad = (got != base) & sure
+    if (base & sure).any() and (~base & sure).any():
+        res.nontriv(('distorted', repr(sorted(ws.items())), ic, ig))
+    # how far the distortion moves things here, in pixels (diagnostic for the evidence: the check only bites when this is large)
+    try:
+        lin = np.asarray(w.wcs_world2pix(np.column_stack([sc.data.lon.deg, sc.data.lat.deg]), 0))
+        res.axis('distortion_px_at_least', '>= 0.01' if float(np.hypot(lin[:, 0] - GX, lin[:, 1] - GY).max()) >= 0.01 else '< 0.01')
+    except Exception:      # noqa: BLE001
+        pass
+    res.outcome(('distorted', geo['cls'], 'ok' if not bad.any() else 'BAD'))
+    if bad.any():
+        k = int(np.flatnonzero(bad)[0])
+        res.violation(ID, 'membership_wrong', case,
+                      f'{geo["cls"]} with a distorted WCS: {int(bad.sum())} of {int(sure.sum())} robust positions: the sky region answers differently from '
+                      f'the pixel region it converts to at the pixel the position falls on; first: pixel ({GX[k]!r}, {GY[k]!r}): sky region '
+                      f'{bool(got[k])}, pixel region {bool(base[k])}', bool(base[k]), bool(got[k]))
+
+
+def distorted_cases():
+    ngeo = len(geometries((0.0, 0.0)))
+    return [{'part': 'distorted', 'wcs': ws, 'ic': ic, 'ig': ig} for ws in DISTORTED for ic in range(len(DIST_CENTRES)) for ig in range(ngeo)]
+
+
 # =================================================================== framework ==
 def shards(tier, seed):
     """One shard = a few WCS x all region specs of its part.  FK4 costs five times the other frames (astropy's
     FK4 -> FK4 self-transformation inside every world_to_pixel), so FK4 shards are smaller and scheduled first."""
     if tier == 'quick':
-        return [{'part': 'main', 'cases': [ws]} for ws in sorted(wcs_specs(tier, seed), key=lambda v: v['frame'] != 'fk4')]
+        return [{'part': 'main', 'cases': [ws]} for ws in sorted(wcs_specs(tier, seed), key=lambda v: v['frame'] != 'fk4')] + \
+            [{'part': 'distorted'}]
     allw = wcs_specs(tier, seed)
     slow = [ws for ws in allw if ws['frame'] == 'fk4']
     fast = [ws for ws in allw if ws['frame'] != 'fk4']
@@ -920,11 +992,16 @@ def shards(tier, seed):
     out += [{'part': 'offdiag', 'cases': part} for part in
             [sorted(wcs_specs('quick', seed), key=lambda v: v['frame'] != 'fk4')[k::32] for k in range(32)]]
     out += [{'part': 'main', 'cases': fast[k::144]} for k in range(144)]
+    out.append({'part': 'distorted'})
     return out
 
 
 def run_shard(shard, tier, seed):
     res = Result()
+    if shard.get('part') == 'distorted':
+        for c in distorted_cases():
+            check_distorted(res, c['wcs'], c['ic'], c['ig'])
+        return res
     specs = region_specs(tier, shard.get('part', 'main'))
     for ws in shard['cases']:
         pre, key = None, None
@@ -938,5 +1015,8 @@ def run_shard(shard, tier, seed):
 
 def replay(case):
     res = Result()
+    if case.get('part') == 'distorted':
+        check_distorted(res, case['wcs'], case['ic'], case['ig'])
+        return res
     check_config(res, case['spec'], case['wcs'], case.get('index', 0))
     return res
